@@ -520,8 +520,10 @@ def build_unpacked(ctx):
         raise vlib.CheckError("cannot derive the unpacked configuration header")
     if not cfg1.exists() or cfg1.read_text() != txt1:
         cfg1.write_text(txt1)
+    # ... built with plain char unsigned as well (the ARM / PowerPC default): small targets are where this layout is used, and a
+    # narrow signed field declared `char` would only show there
     return ctx.cc("avl_drv_unpacked", [HARN / "avl_drv.c"], repo_srcs=["avl.c"], mode="asan",
-                  defines=['A_HAVE_H="%s"' % cfg1])
+                  defines=['A_HAVE_H="%s"' % cfg1], extra=["-funsigned-char"])
 
 
 def run(ctx):
